@@ -600,7 +600,7 @@ impl ActiveSegment
 		if self.buffer.len() - start < data.len()
 		{
 			let overwrite = self.buffer.len() - start;
-			if !self.has_remaining(overwrite)
+			if !self.has_remaining(data.len() - overwrite)
 			{
 				return Err(SegmentError::Overflow{need: data.len() - overwrite, have: self.remaining()});
 			}
